@@ -228,7 +228,13 @@ func (bc *BuildCache) deserialize(c Cacheable, srcModTime time.Time, r io.Reader
 		return buildTime, false, err
 	}
 	defer func() {
-		// This close checks the gzip checksum but does not close the given reader.
+		if err == nil && !old {
+			// The gzip checksum is only verified once the reader reaches the end of
+			// the stream, which the gob decoder is not guaranteed to do. Drain the
+			// remainder so that a corrupted file is reported as an error.
+			_, err = io.Copy(io.Discard, zr)
+		}
+		// This close does not close the given reader.
 		if closeErr := zr.Close(); err == nil {
 			err = closeErr
 		}
